@@ -38,17 +38,12 @@ Fixpoint mset_eqb {A} (eqb : A -> A -> bool) (l1 l2 : list A) : bool :=
 Definition avs_consistent (s : st) : bool :=
   match sm s with RVal v => Z.eqb (avs s) v | _ => Z.eqb (avs s) 0 end.
 
-(* When two distinct keys of the input compare equal, which of them the spill
-   path emits depends on Go's map iteration order; the row is then matched up to
-   the comparator's equivalence.  Otherwise keys must be identical. *)
+(* Keys must be identical: the spill comparator separates distinct keys. *)
 Definition gb_ok (c : gb_case) : bool :=
   let '(limit, input, observed) := c in
-  let faithful := cmp_faithfulb key_eqb key_cmp (to_rows input) in
-  let keq := if faithful then key_eqb
-             else fun a b => match key_cmp a b with Eq => true | _ => false end in
   let model := groupby_model limit input in
   forallb (fun '(_, s) => avs_consistent s) model
-  && mset_eqb (fun '(k1, o1) '(k2, o2) => keq k1 k2 && obs_eqb o1 o2)
+  && mset_eqb (fun '(k1, o1) '(k2, o2) => key_eqb k1 k2 && obs_eqb o1 o2)
               (map (fun '(k, s) => (k, st_obs s)) model) observed.
 
 Fixpoint mism10 {A} (ok : A -> bool) (i : N) (l : list A) : list N :=
@@ -60,12 +55,10 @@ Fixpoint mism10 {A} (ok : A -> bool) (i : N) (l : list A) : list N :=
 Definition gb_mismatches (l : list gb_case) : list N := mism10 gb_ok 0 l.
 
 (* the naive evaluation computed inside Coq must also agree with what the real
-   operator produced whenever the comparator is faithful on the case's keys *)
+   operator produced *)
 Definition gb_spec_ok (c : gb_case) : bool :=
   let '(limit, input, observed) := c in
-  if cmp_faithfulb key_eqb key_cmp (to_rows input)
-  then mset_eqb (fun '(k1, o1) '(k2, o2) => key_eqb k1 k2 && obs_eqb o1 o2)
-                (map (fun '(k, s) => (k, st_obs s)) (naive_groupby input)) observed
-  else true.
+  mset_eqb (fun '(k1, o1) '(k2, o2) => key_eqb k1 k2 && obs_eqb o1 o2)
+           (map (fun '(k, s) => (k, st_obs s)) (naive_groupby input)) observed.
 
 Definition gb_spec_mismatches (l : list gb_case) : list N := mism10 gb_spec_ok 0 l.
